@@ -50,6 +50,10 @@ type vfObject struct {
 	// harness itself (element reference -> independently parsed global heap collection),
 	// as length:checksum per element, because the read API offers no reader for them.
 	VLen     string
+	// Partial (only when vfDumpPartial is set): ReadSlice of the full extent, the same call
+	// again on the same handle (a retry), and the concatenated chunks of a full iteration;
+	// each is a printed value or ERR.
+	Partial  [3]string
 	Attrs    []vfAttr // sorted by name
 	AttrErr  bool
 	Children []string // in Children() order
@@ -65,6 +69,9 @@ func (o *vfObject) Content() string {
 		fmt.Fprintf(&sb, " info=%q shape=%s read=%s strings=%s compound=%s", info, o.Shape, o.Read, o.Strings, o.Compound)
 		if o.VLen != "" {
 			fmt.Fprintf(&sb, " vlen=%s", o.VLen)
+		}
+		if o.Partial[0] != "" {
+			fmt.Fprintf(&sb, " slice=%s slice-again=%s chunks=%s", o.Partial[0], o.Partial[1], o.Partial[2])
 		}
 	}
 	if o.Kind == "group" {
@@ -202,6 +209,9 @@ func vfDatasetDump(d *Dataset, o *vfObject) {
 		}
 	}) {
 		o.Read = "PANIC"
+	}
+	if vfDumpPartial {
+		vfPartialDump(d, o, guard)
 	}
 	if guard(func() {
 		v, err := d.ReadStrings()
@@ -406,4 +416,58 @@ func vfVLenView(r io.ReaderAt, addr uint64, dims []uint64) string {
 		fmt.Fprintf(&sb, "%d:%08x,", len(ob), crc32.ChecksumIEEE(ob))
 	}
 	return sb.String()
+}
+
+// vfDumpPartial makes the dump exercise the partial-read API as well (C17).
+var vfDumpPartial bool
+
+func vfPartialDump(d *Dataset, o *vfObject, guard func(func()) bool) {
+	var dims []uint64
+	guard(func() {
+		if hdr, err := core.ReadObjectHeader(d.file.osFile, d.address, d.file.sb); err == nil {
+			if di, err := core.ReadDatasetInfo(hdr, d.file.sb); err == nil && di.Dataspace != nil {
+				dims = di.Dataspace.Dimensions
+			}
+		}
+	})
+	o.Partial = [3]string{"ERR", "ERR", "ERR"}
+	n := uint64(1)
+	for _, x := range dims {
+		n *= x
+	}
+	if len(dims) == 0 || n == 0 || n > 1<<16 {
+		return
+	}
+	start := make([]uint64, len(dims))
+	for k := 0; k < 2; k++ {
+		k := k
+		if guard(func() {
+			v, err := d.ReadSlice(start, dims)
+			if err == nil {
+				o.Partial[k] = fmt.Sprintf("%v", v)
+			}
+		}) {
+			o.Partial[k] = "PANIC"
+		}
+	}
+	if guard(func() {
+		it, err := d.ChunkIterator()
+		if err != nil {
+			return
+		}
+		var sb strings.Builder
+		for i := 0; it.Next() && i < 4096; i++ {
+			c, err := it.Chunk()
+			if err != nil {
+				return
+			}
+			fmt.Fprintf(&sb, "%v@%v;", c, it.ChunkCoords())
+		}
+		if it.Err() != nil {
+			return
+		}
+		o.Partial[2] = sb.String()
+	}) {
+		o.Partial[2] = "PANIC"
+	}
 }
